@@ -287,9 +287,9 @@ func runStart(obs []obsRec, i int) int {
 	return j
 }
 
-// lenientStart is the earliest instant from which a reading of the statement
-// may measure the stable period of the run starting at j: the return of the
-// previous (different) observation, or the call of the run's first observation.
+// lenientStart: the return of the previous (different) observation, or the call of the run's first observation.
+// Used only to COUNT the runs that could qualify at all (a reaction without any such run is a flapping signal);
+// the span a reaction needs is measured from the call of the run's first observation (checkTrace, S2).
 func lenientStart(obs []obsRec, j int) time.Duration {
 	if j > 0 {
 		return obs[j-1].B
@@ -332,8 +332,11 @@ func checkTrace(s settings, tr *trace) (verdict, error) {
 		if i-j+1 < n {
 			return v, fmt.Errorf("reaction #%d (%s) at observation %d after only %d consecutive observations of that state, %d configured", k+1, stateName(r.Healthy), i, i-j+1, n)
 		}
-		if span := r.T - lenientStart(obs, j); span < s.Period {
-			return v, fmt.Errorf("reaction #%d (%s) at observation %d: the run spans %v (even measured from the previous observation), stable period is %v", k+1, stateName(r.Healthy), i, span, s.Period)
+		// the span of the consecutive checks that observed the new state: from the call of the first of them (the
+		// check before it observed the other state and is not one of them) to the reaction
+		if span := r.T - obs[j].A; span < s.Period {
+			return v, fmt.Errorf("reaction #%d (%s) at observation %d: the %d consecutive checks that observed that state span %v (from the call of the first of them, observation %d, to the reaction), stable period is %v",
+				k+1, stateName(r.Healthy), i, i-j+1, span, j, s.Period)
 		}
 		// informational: did it fire at the earliest observation allowed (N>=2: the N-th, span from the run's first observation)?
 		if first := j + max(n, 2) - 1; i == first || (i > first && obs[i-1].B-obs[j].B < s.Period) {
